@@ -239,7 +239,13 @@ func (fv *FuncVC) applyContract(con *Contract, callee *ssa.Function, c *ssa.Call
 		res = fv.havocVal("r."+sanitize(key), resT)
 	}
 	post := &Env{fv: fv, st: fv.cur, old: pre, vars: env.vars, allocOld: allocOld}
-	fv.bindResults(post, res, callee, con, c.Signature())
+	var sig *types.Signature
+	if c != nil {
+		sig = c.Signature()
+	} else {
+		sig = callee.Signature
+	}
+	fv.bindResults(post, res, callee, con, sig)
 	if callee != nil && len(callee.FreeVars) > 0 {
 		post.oldVars = map[string]*Val{}
 		nv := map[string]*Val{}
@@ -330,6 +336,9 @@ func (fv *FuncVC) resolveModifies(con *Contract, env *Env) []modTarget {
 			switch n.Name {
 			case "everything":
 				add("*", "", "")
+				continue
+			case "once":
+				add("ONCE", "(Array Int Bool)", "")
 				continue
 			case "locks":
 				// only the mutexes the contract talks about (held(...) in ensures) may change state
@@ -510,6 +519,9 @@ func (fv *FuncVC) applyModifies(con *Contract, callee *ssa.Function, env *Env, a
 		}
 		cur := h
 		for _, loc := range t.locs {
+			if t.heap == "LOCK" {
+				fv.noteLockID(loc)
+			}
 			fr := fv.fresh("m."+t.heap, elemSortOfArray(t.sort))
 			cur = "(store " + cur + " " + loc + " " + fr + ")"
 		}
